@@ -188,62 +188,26 @@ def call_kwargs(call, env=None):
             d[kw.arg] = ('expr', ast.unparse(kw.value))
     return d
 
-def emit_netascii():
-    t = parse('netascii.py')
-    tools = parse('tools.py')
-    tftpd = parse('tftpd.py')
-    tftp_env = module_consts(parse('tftp.py'))
-    lines = [HEADER.format(src='netascii.py, tools.py, tftpd.py, server.py')]
-    lines.append(f'Definition tftpd_imports_netascii : bool := {coq_bool("netascii" in import_closure("tftpd"))}.')
-    lines.append(f'Definition server_imports_netascii : bool := {coq_bool("netascii" in import_closure("server"))}.')
-    lines.append(f'Definition codec_registered : bool := {coq_bool(has_module_call(t, "codecs.register(find_netascii)"))}.')
-    # find_netascii wiring
-    fn = find_func(t.body, 'find_netascii')
-    src = ast.unparse(fn)
-    wiring = all(s in src for s in (
-        "name.lower() == 'netascii'", 'encode=stateless_encode', 'decode=stateless_decode',
-        'incrementalencoder=IncrementalEncoder', 'incrementaldecoder=IncrementalDecoder',
-        'streamreader=StreamReader', 'streamwriter=StreamWriter'))
-    lines.append(f'Definition codec_wiring_standard : bool := {coq_bool(wiring)}.')
-    se = ast.unparse(find_func(t.body, 'stateless_encode'))
-    sd = ast.unparse(find_func(t.body, 'stateless_decode'))
-    lines.append(f'Definition stateless_final : bool := {coq_bool("encode(s, errors, final=True)" in se and "decode(s, errors, final=True)" in sd)}.')
-    # BufferedTranscoder.readinto read size
-    bt = find_class(tools, 'BufferedTranscoder')
-    ri = find_func(bt.body, 'readinto')
-    sizes = [const_eval(c.args[0], {}) for c in ast.walk(ri)
-             if isinstance(c, ast.Call) and ast.unparse(c.func) == 'self._source.read' and c.args]
-    if len(sizes) != 1:
-        raise TranslateError('BufferedTranscoder.readinto: expected one sized read')
-    lines.append(f'Definition transcoder_chunk : N := {coq_N(sizes[0])}.')
-    # TFTPClientState: how the transcoder is constructed
-    cs = find_class(tftpd, 'TFTPClientState')
-    init = find_func(cs.body, '__init__')
-    calls = [c for c in ast.walk(init) if isinstance(c, ast.Call)
-             and ast.unparse(c.func) == 'BufferedTranscoder']
-    if len(calls) != 1:
-        raise TranslateError('TFTPClientState.__init__: expected one BufferedTranscoder call')
-    c = calls[0]
-    args = [const_eval(a, tftp_env) if not (isinstance(a, ast.Attribute)) else ('expr', ast.unparse(a)) for a in c.args]
-    kw = call_kwargs(c, tftp_env)
-    ok = (len(args) == 3 and args[0] == ('expr', 'self.source') and args[1] == 'netascii'
-          and args[2] == 'ascii' and kw == {'errors': 'replace'})
-    lines.append(f'Definition transcoder_args_standard : bool := {coq_bool(ok)}.')
-    lines.append(f'Definition linesep_is_lf : bool := {coq_bool(os.linesep == chr(10))}.')
-    return write_if_changed('Netascii.v', '\n'.join(lines) + '\n')
+# Emitters live in harness/gen_<area>.py; each defines  NAME = '<Area>'  and
+# emit() -> text of coq/Gen/<Area>.v  (raise TranslateError to fail closed).
+def _discover():
+    import importlib, glob as _glob
+    here = os.path.dirname(os.path.abspath(__file__))
+    ems = {}
+    for path in sorted(_glob.glob(os.path.join(here, 'gen_*.py'))):
+        mod = importlib.import_module(os.path.splitext(os.path.basename(path))[0])
+        ems[mod.NAME] = mod.emit
+    return ems
 
-EMITTERS = {
-    'Netascii': emit_netascii,
-}
 
 def run(which=None):
     """returns dict name -> None (ok) or error string"""
     res = {}
-    for name, fn in EMITTERS.items():
+    for name, fn in _discover().items():
         if which and name not in which:
             continue
         try:
-            fn()
+            write_if_changed(name + '.v', fn())
             res[name] = None
         except Exception as exc:   # fail closed
             res[name] = f'{type(exc).__name__}: {exc}'
